@@ -1,6 +1,6 @@
 (* Correspondence entry point: one op name + arguments -> canonical observation.
    Extracted to OCaml (Extract.v) and driven by ocaml/driver.ml. *)
-From Ufw Require Import Base.Val Base.Bits Base.Errno Model.Crc Model.ByteBuffer Model.Endpoints Model.Varint Model.Ring Model.Slip Model.Lenp Model.Persist Model.BinFmt Gen.BfGen_LB Model.RegTable Model.Regp.
+From Ufw Require Import Base.Val Base.Bits Base.Errno Model.Crc Model.ByteBuffer Model.Endpoints Model.Varint Model.Ring Model.Slip Model.Lenp Model.Persist Model.BinFmt Gen.BfGen_LB Model.RegTable Model.Regp Model.Sx.
 Local Open Scope string_scope.
 Local Open Scope N_scope.
 
@@ -530,6 +530,33 @@ Definition run_rp (op : string) (a : list val) : list val :=
      end)%list
   else [VS "unknown-op"].
 
+(* ---------------- s-expression reader (C20) ---------------- *)
+Definition sx_stname (s : sxstatus) : val :=
+  VS (match s with SSuccess => "SUCCESS" | SFoundList => "FOUND_LIST" | SBrokenInt => "BROKEN_INTEGER" | SBrokenSym => "BROKEN_SYMBOL"
+              | SUnknown => "UNKNOWN_INPUT" | SUnexpectedEnd => "UNEXPECTED_END" end).
+Fixpoint sx_render (t : sx) : list val :=
+  match t with
+  | Sym cs => [VS "s"; VH cs] | Int n => [VS "i"; VN n] | Nil => [VS "n"]
+  | Cons a d => (VS "c" :: sx_render a ++ sx_render d)%list
+  end.
+Definition run_sx (op : string) (a : list val) : list val :=
+  let inp := argH 0 a in
+  if existsb (fun c => 128 <=? c) inp then [VS "skip"] else
+  if String.eqb op "sx.parse" then
+    if negb (argB 1 a) && existsb (N.eqb 0) inp then [VS "skip"] else
+    match sx_parse inp with
+    | None => [VS "out-of-fuel"]
+    | Some (ROk t c) => (sx_stname SSuccess :: VN (N.of_nat c) :: sx_render t ++ [VS "balanced"])%list
+    | Some (RErr e) => [sx_stname e; VS "no-tree"; VS "balanced"]
+    end
+  else if String.eqb op "sx.tok" then
+    let i := N.to_nat (argN 1 a) in
+    if (List.length inp <? i)%nat then [VS "skip"] else
+    let tk := token (skipn i inp) in
+    (sx_stname (t_status tk) :: VN (match t_used tk with None => 0 | Some c => N.of_nat (i + c) end)
+     :: match t_node tk with None => [VS "NULL"] | Some t => sx_render t end)%list
+  else [VS "unknown-op"].
+
 Definition prefix_of (p s : string) : bool := String.prefix p s.
 
 Definition dispatch (op : string) (a : list val) : list val :=
@@ -544,4 +571,5 @@ Definition dispatch (op : string) (a : list val) : list val :=
   else if prefix_of "bf." op then run_bf op a
   else if prefix_of "reg." op then run_reg op a
   else if prefix_of "rp." op then run_rp op a
+  else if prefix_of "sx." op then run_sx op a
   else [VS "unknown-op"].
